@@ -144,7 +144,7 @@ Calls(op) ==
                          \cup { Call(op, [c |-> NONE, u |-> u, form |-> "U"]) : u \in Spellings }
     [] op = "ObjGetValidUnits" -> { Call(op, [c |-> c, u |-> u]) : c \in Cats, u \in Units }
 
-Init == TLCSet(2, 0) /\ reg = Reg0 /\ memo = EmptyF /\ icache = EmptyF /\ based = {} /\ hist = <<>>
+Init == TLCSet(2, 1 + (EmitOffset % 65520)) /\ reg = Reg0 /\ memo = EmptyF /\ icache = EmptyF /\ based = {} /\ hist = <<>>
 Bound == Len(hist) < MaxCalls
 \* one named action per public call (per-action coverage is reported in the evidence)
 AddUnit      == Bound /\ "AddUnit" \in Ops /\ \E c \in Calls("AddUnit") : Register(c)
@@ -167,10 +167,14 @@ MemoSet(m) == { [c |-> k[1], u |-> k[2], v |-> m[k]] : k \in DOMAIN m }
 ICSet(ic)  == { [c |-> k[1], u |-> k[2], q |-> ic[k]] : k \in DOMAIN ic }
 EmitMode == IF "EMIT" \in DOMAIN IOEnv THEN IOEnv.EMIT ELSE "0"
 EmitRec == PrintT(<<"TR", ToJson([h |-> hist', reg |-> reg', memo |-> MemoSet(memo'), icache |-> ICSet(icache')])>>)
-\* "sample": every Every-th generated transition (systematic sample in BFS order; -workers 1)
+\* "sample": a pseudo-random 1/EmitEvery sample of the generated transitions (seed EmitOffset; -workers 1).
+\* (A systematic every-k-th sample aliases with the branching factor: with 8 calls per state and k = 8 the
+\* same call is sampled in every state.)
 Emit == CASE EmitMode = "all"    -> EmitRec
-          [] EmitMode = "sample" -> /\ TLCSet(2, TLCGet(2) + 1)
-                                    /\ (TLCGet(2) % EmitEvery = EmitOffset => EmitRec)
+          [] EmitMode = "sample" -> /\ TLCSet(2, (TLCGet(2) * 17364) % 65521)     \* multiplicative congruential generator
+                                    /\ (TLCGet(2) % EmitEvery = 0 => EmitRec)
+          [] EmitMode = "part"   -> /\ TLCSet(2, TLCGet(2) + 1)                      \* partition: process EmitOffset of EmitEvery
+                                    /\ (TLCGet(2) % EmitEvery = EmitOffset % EmitEvery => EmitRec)
           [] OTHER -> TRUE
 
 \* ---- C14 -------------------------------------------------------------------------------------------
